@@ -205,8 +205,17 @@ pub fn run(rec: &mut Recorder, w: &mut World, tier: &str, seed: u64) {
     let n_random = (if tier == "thorough" { 4000 } else { 250 }) * rec.budget;
     for hi in 0..n_random {
         let nn = 4 + rng.below(9); // 4..12 names
-        let names: Vec<String> = (0..nn).map(|i| format!("n{}", i)).collect();
-        let doms = vec![None, Some("d1".to_string()), Some("DEFAULT".to_string())];
+        let mut names: Vec<String> = (0..nn).map(|i| format!("n{}", i)).collect();
+        let mut doms = vec![None, Some("d1".to_string()), Some("DEFAULT".to_string())];
+        // every other history: unusual but valid names and domains — empty, blank-only, blank-edged and case variants of a
+        // name that is also present, "*", names whose concatenations coincide ("a"+"bc" = "ab"+"c", ""+"ab" = "a"+"b")
+        if hi % 2 == 1 {
+            let odd = ["", " ", "n1 ", " n1", "N1", "*", "a", "ab", "abc", "b", "bc", "c", "é", "DEFAULT", "n1n2", "n,1"];
+            for _ in 0..2 + rng.below(5) { let i = rng.below(nn); let o = rng.pick(&odd).to_string(); if !names.contains(&o) { names[i] = o; } }
+            let oddd = ["", " ", "*", "d1 ", "D1", "n1"];
+            for _ in 0..1 + rng.below(2) { let o = Some(rng.pick(&oddd).to_string()); if !doms.contains(&o) { doms.push(o); } }
+            rec.count("names:unusual-values");
+        }
         let limit = *rng.pick(&[10usize, 10, 10, 1, 2, 3, 5]);
         let mut hist: Vec<Op> = vec![];
         let len = 5 + rng.below(56);
@@ -269,7 +278,7 @@ pub fn run(rec: &mut Recorder, w: &mut World, tier: &str, seed: u64) {
         // query universe: the names plus one never mentioned
         let mut qn = names.clone();
         qn.push("ghost".to_string());
-        let qd = vec![None, Some("d1".to_string()), Some("DEFAULT".to_string()), Some("nodom".to_string())];
+        let mut qd = doms.clone(); qd.push(Some("nodom".to_string()));
         rec.begin();
         rec.exec(w, &format!("rm.new\t{}", limit));
         let mut refl = RefLinks::default();
